@@ -915,3 +915,54 @@ func c16CopyTo(c *Ctx, r *Report, rule string) {
 	}
 	r.check(len(ps) == 0, rule, "Msg.CopyTo:sections", c.pos(fn.Pos()), "4 sections on every path", "%s: a destination that held another message keeps that section, so the copy differs from its source", strings.Join(uniqStrings(ps), "; "))
 }
+
+// ecdsaSigLength: an ECDSA signature on the wire is r | s, each exactly as long as the order of the curve
+// (RFC 6605 s.4). A verifier that splits whatever it is given in the middle accepts padded variants of a valid
+// signature: the length is compared (== / !=) with the curve's size before ecdsa.Verify is reached.
+func ecdsaSigLength(c *Ctx, r *Report, rule, fname, consequence string) {
+	fn := c.ssaFunc(fname)
+	if fn == nil {
+		r.cerr(rule, fname, "function not found")
+		return
+	}
+	r.fn(fname)
+	n := 0
+	for _, ci := range callsIn(fn, "crypto/ecdsa.Verify", "ecdsa.Verify") {
+		n++
+		args := ci.Common().Args
+		// the buffer r and s are cut from: SetBytes(buf[...])
+		var buf ssa.Value
+		for _, a := range args[len(args)-2:] {
+			for o := range sliceOf(a) {
+				if call, ok := o.(*ssa.Call); ok && strings.HasSuffix(calleeNameSSA(&call.Call), "Int).SetBytes") {
+					if sl, ok := call.Call.Args[len(call.Call.Args)-1].(*ssa.Slice); ok {
+						buf = sl.X
+					}
+				}
+			}
+		}
+		construct := fmt.Sprintf("%s:ecdsa.Verify#%d", fname, n)
+		if buf == nil {
+			r.undecided(rule, construct, c.pos(ci.Pos()), "r and s are not cut from a byte slice with SetBytes(buf[..])")
+			continue
+		}
+		checked := false
+		for _, f := range factsAt(fn, ci.(ssa.Instruction).Block()) {
+			bin, ok := f.Atom.(*ssa.BinOp)
+			if !ok || (bin.Op != token.EQL && bin.Op != token.NEQ) {
+				continue
+			}
+			isLen := func(v ssa.Value) bool {
+				call, ok := v.(*ssa.Call)
+				return ok && calleeNameSSA(&call.Call) == "builtin.len" && call.Call.Args[0] == buf
+			}
+			if (isLen(bin.X) || isLen(bin.Y)) && ((bin.Op == token.EQL && f.Holds) || (bin.Op == token.NEQ && !f.Holds)) {
+				checked = true
+			}
+		}
+		r.check(checked, rule, construct, c.pos(ci.Pos()), "len(signature) == 2 * curve size", "the signature is split in the middle without its length having been compared with twice the curve size: %s", consequence)
+	}
+	if n == 0 {
+		r.undecided(rule, fname, c.pos(fn.Pos()), "no ecdsa.Verify call found")
+	}
+}
